@@ -86,6 +86,19 @@ Example C07_respelling_refuted :
   forall a, In a (bump_actions (Some vs) (mkPkg [97] [118;52] None 0 2 0 0 None)) -> a_text a = [118;53;46;48;46;48] /\ ~ In (a_text a) vs.
 Proof. vm_compute. split; [discriminate|]. intros a [<-|[]]. split; [reflexivity|]. intros [H|[H|[]]]; discriminate. Qed.
 
+(* the offered version text: Display after from_str gives the text back (ParseShow.parse_show), so what a calculator
+   offers is a cached version text with its operator prefix stripped and missing components padded with ".0" - and the
+   cached text itself whenever that is a full SemVer version.  The padded / stripped case is the finding above. *)
+From VL Require Import Proofs.ParseShow Proofs.OfferedText.
+Theorem C07_offered_text :
+  forall keep current versions s, latest_where keep current versions = Some s ->
+  exists v, In v versions /\ s = pad (strip_ops v) /\ (forall m, SemVer.parse v = Some m -> s = v).
+Proof. exact offered_text. Qed.
+Theorem C07_full_semver_read_as_is :
+  forall s v, SemVer.parse s = Some v -> pad (strip_ops s) = s /\ parse_version s = Some v.
+Proof. exact full_semver_read_as_is. Qed.
+Print Assumptions C07_offered_text.
+
 Print Assumptions C07_targets.
 Print Assumptions C07_edit_local.
 Print Assumptions C07_inserted_text_safe.
